@@ -273,6 +273,8 @@ def main(pid, run, native=None):
             from harness import replay as R
             return R.replay(ctx, a.replay)
         run(ctx)
+        if native is not None and (os.environ.get('VERIF_NATIVE_TOO') or a.tier == 'thorough'):
+            native(ctx)          # thorough tier: the native supplement always runs as well
         return ctx.finish()
     except Exception as e:           # Unsupported / Inconclusive / PathLimit / DecodeError, and any internal error of the machinery
         traceback.print_exc(limit=6)
